@@ -965,11 +965,11 @@ V(id='c38-rs-cache-from-mp', prop='C38', file='mpmath/functions/rszeta.py',
   old="        ctx._rs_cache = [0, 10, {}, {}]", new="        ctx._rs_cache = _GLOBAL_RS_CACHE",
   expect='fire:X-R2')
 V(id='c38-clone-shares-summators', prop='C38', file='mpmath/ctx_mp.py',
-  old="        a.prec = ctx.prec\n        return a", new="        a.prec = ctx.prec\n        a.hyp_summators = ctx.hyp_summators\n        return a",
+  old="        a.prec = ctx.prec\n", new="        a.prec = ctx.prec\n        a.hyp_summators = ctx.hyp_summators\n",
   expect='fire:X-R3:MPContext.clone')
 V(id='c38-clone-shallow-copy', prop='C38', file='mpmath/ctx_mp.py',
-  old="        a = ctx.__class__()\n        a.prec = ctx.prec\n        return a",
-  new="        import copy\n        a = copy.copy(ctx)\n        return a",
+  old="        a = ctx.__class__()\n        a.prec = ctx.prec\n",
+  new="        import copy\n        a = copy.copy(ctx)\n",
   expect='fire:X-R3:MPContext.clone')
 V(id='c38-mpc-abs-global-mpf', prop='C38', file='mpmath/ctx_mp_python.py',
   old="        prec, rounding = s.context._prec_rounding\n        v = new(s.context.mpf)\n        v._mpf_ = mpc_abs(",
@@ -1002,7 +1002,7 @@ V(id='c38-fp-setter-writes-mp', prop='C38', file='mpmath/ctx_fp.py',
   old="    def _set_prec(ctx, p): return", new="    def _set_prec(ctx, p): ctx._mp.prec = p",
   expect='fire:X-R7:FPContext._set_prec')
 V(id='c38-benign-clone-copies-pretty', prop='C38', file='mpmath/ctx_mp.py',
-  old="        a.prec = ctx.prec\n        return a", new="        a.prec = ctx.prec\n        a.pretty = ctx.pretty\n        return a",
+  old="        a.prec = ctx.prec\n", new="        a.prec = ctx.prec\n        a.pretty = ctx.pretty\n",
   expect='silent')
 V(id='c38-benign-coef-rename-snapshot', prop='C38', file='mpmath/functions/rszeta.py',
   old="""    orig = ctx._mp.prec
@@ -1797,3 +1797,16 @@ V(id='c37-numeral-guard-one-backend-only', prop='C37', file='mpmath/libmp/libint
 V(id='c37-numeral-split-point-differs', prop='C37', file='mpmath/libmp/libintmath.py',
   old="    half = (size // 2) + (size & 1)\n    A, B = divmod(n, MPZ(base)**half)", new="    half = size // 2\n    A, B = divmod(n, MPZ(base)**half)",
   expect='fire:Y-R5:numeral_gmpy')
+
+# ---- C38 X-R8 / X-R3 links (fix 8aa8da4) ----
+V(id='c38-clone-without-links', prop='C38', file='mpmath/ctx_mp.py',
+  old="        a._mp = a\n        for name in ('_fp', '_iv'):\n            if hasattr(ctx, name):\n                setattr(a, name, getattr(ctx, name))\n",
+  new="", expect='fire:X-R8:clone')
+V(id='c38-clone-links-fp-only', prop='C38', file='mpmath/ctx_mp.py',
+  old="        for name in ('_fp', '_iv'):", new="        for name in ('_fp',):",
+  expect='fire:X-R8:clone')
+V(id='c38-clone-mp-link-to-original', prop='C38', file='mpmath/ctx_mp.py',
+  old="        a._mp = a\n", new="        a._mp = ctx\n",
+  expect='fire:X-R3:clone')
+V(id='c38-fp-link-missing-in-init', prop='C38', file='mpmath/__init__.py',
+  old="mp._fp = fp\n", new="", expect='fire:X-R8:<module>')
